@@ -72,6 +72,17 @@ def execute(acc, g, case):
                     handler.__name__ = "route_%s_%s" % key
                     return handler
                 app.route(application_id=app_id, command_code=code)(make(key))
+        # a second Bromelia application object in the same process registers handlers for the very same pairs afterwards: a route
+        # table belongs to its application, so the requests dispatched below (on the first one) must never reach these
+        import os as _os
+        other = h.BB.Bromelia(config_file=_os.path.join(h.tmp, "config.yaml"))
+        for key, rt in routes.items():
+            def decoy(request, key=key):
+                calls.append(("other-application-object",) + key)
+                return None
+            decoy.__name__ = "decoy_%s_%s" % key
+            other.route(application_id=rt["app_id"], command_code=rt["code"])(decoy)
+        acc.counters["second_application_object"] += 1
         outcome_for = [None]
         n_dispatch = 0
         for key, rt in sorted(routes.items()):
